@@ -1,8 +1,8 @@
 """Replayable suite of the elliptic-curve layer (C06) for the configuration sweep (C19) and the exact-size
 sanitizer run (C07): harness/drv_ec.c `record suite` emits self-contained lines (a complete small curve, two
-multi-word subgroup curves in the Crandall and the Montgomery ring, law lines on the four standard curves) that
+multi-word subgroup curves in the plain (two words), Crandall and Montgomery rings, law lines on the four standard curves) that
 spec/trace/Trace_EC.tla recomputes.  Lines do not depend on the word size; every description / stack / point buffer
-is malloc'ed at exactly its documented size.  (The two-word plain-ring curve is left to C06 itself.)"""
+is malloc'ed at exactly its documented size."""
 
 SUITES = [
     {"name": "ec", "sources": ["drv_ec.c"], "libs": [], "trace": "Trace_EC",
